@@ -263,6 +263,15 @@ func (c *Check) finish(explanation string) int {
 	for k, v := range c.info {
 		cov[k] = v
 	}
+	// functions treated as blocks of their only caller (path splicing)
+	var spliced []string
+	for _, f := range c.P.Funcs {
+		if c.P.inlineMemo[f] {
+			spliced = append(spliced, f.Name+" -> "+c.P.inlineHost(f).Name)
+		}
+	}
+	sort.Strings(spliced)
+	cov["spliced_helpers"] = spliced
 	ev := evidence{PropertyID: c.Prop, Tier: c.Tier, Seed: seedEnv(), Level: "other", Coverage: cov,
 		Assumptions: assum, WallS: time.Since(c.start).Seconds(), Violations: len(viol)}
 	bz, err := json.MarshalIndent(ev, "", " ")
